@@ -119,10 +119,11 @@ def NumpyFacts.asModelled (N : NumpyFacts) : Bool :=
     N.flatten == ["values.ravel()", "mask.ravel()"] && N.singleColumn == some modelSingleColumn
 
 /-- what the model assumes of `polygonize()` besides the values: mask and transform reach the kernel with their
-    own dtype (the transform through value-keeping conversions only), no supplied transform is ever dropped, the
+    own dtype (the transform through value-keeping conversions only; a mask may also be cast to bool -- the kernel
+    only tests its truth value), no supplied transform is ever dropped, the
     third argument is `connectivity == 8` -/
 def WrapperFacts.passesThrough (F : WrapperFacts) : Bool :=
-  F.ok && F.maskCast == .none && F.transformCast == .none && F.transformDrops.isEmpty &&
+  F.ok && (F.maskCast == .none || F.maskCast == .to .bool) && F.transformCast == .none && F.transformDrops.isEmpty &&
     F.connectivity8 == "connectivity == 8" && F.problems.isEmpty
 
 /-- **the wrapper as the facts describe it**, for a raster of dtype `src`:
